@@ -37,6 +37,7 @@ CHECKS = {
             unit("table", "^TestC01AtomTable$", 0, 0, shards=(1, 1)),
             unit("formulas", "^TestC01$", 100, 500, timeout=(900, 3300)),
             unit("gen-atoms", "^TestC01GenAtoms$", 150, 4000, timeout=(600, 3300)),
+            unit("same-property", "^TestC01SameProperty$", 60, 1500, timeout=(600, 3300)),
         ],
     },
     "C03": {
